@@ -581,7 +581,35 @@ Record dump := mkDump {
   d_res : option (list (string * res_info)); d_chals : option (list (string * string));
   d_opted : option (list (string * bool)) }.
 
-Record stepobs := mkStep { so_op : op; so_res : result; so_dump : dump }.
+(* what the self USD value of an operator is made of, read from the stores right before an opt-in: for every asset of
+   the AVS that the operator holds, the operator's pool (TotalAmount, OperatorShare, TotalShare as raw decimals), the
+   oracle price (value, decimals) and the asset decimals *)
+Record pool := mkPool { pl_amount : Z; pl_share : Z; pl_tshare : Z; pl_price : Z; pl_adec : Z; pl_pdec : Z }.
+
+Record stepobs := mkStep { so_op : op; so_res : result; so_dump : dump; so_pools : option (list pool) }.
+
+(* the code's formula: TokensFromShares (Quo with banker rounding, TruncateInt) and CalculateUSDValue
+   (LegacyNewDecFromBigInt(amount * price).QuoInt(10^(asset decimals + price decimals)), truncating) *)
+Definition pool_tokens (p : pool) : Z :=
+  if pl_tshare p =? 0 then 0 else dec_trunc_int (dec_quo (pl_share p * pl_amount p) (pl_tshare p)).
+Definition usd_trunc (amount price d : Z) : Z := Z.quot (amount * price * P) (10 ^ d).
+Definition pool_usd (p : pool) : Z := usd_trunc (pool_tokens p) (pl_price p) (pl_adec p + pl_pdec p).
+Definition self_formula (l : list pool) : Z := zsum (map pool_usd l).
+
+(* the property's reading, in exact rational arithmetic (no rounding anywhere):
+     sum_i share_i * amount_i * price_i / (tshare_i * 10^(adec_i + pdec_i))  >=  min
+   evaluated by cross-multiplication over a common denominator *)
+Definition pool_num (p : pool) : Z := pl_share p * pl_amount p * pl_price p.
+Definition pool_den (p : pool) : Z := pl_tshare p * 10 ^ (pl_adec p + pl_pdec p).
+Fixpoint rat_sum (l : list pool) : Z * Z :=
+  match l with
+  | [] => (0, 1)
+  | p :: r =>
+      let '(n, d) := rat_sum r in
+      if pool_den p <=? 0 then (n, d) else (n * pool_den p + pool_num p * d, d * pool_den p)
+  end.
+Definition exact_self_ge (l : list pool) (min : Z) : bool :=
+  let '(n, d) := rat_sum l in min * d <=? n.
 
 Record case := mkCase {
   c_operators : list string; c_assets : list string; c_epochs : list (string * Z); c_init : dump;
@@ -654,7 +682,14 @@ Fixpoint check_steps (e : env) (obs : state) (l : list stepobs) (i : nat) : opti
   | s :: rest =>
       let '(m, r) := step e obs (so_op s) in
       let obs' := with_epochs (apply_dump obs (so_dump s)) (s_epochs m) in
-      if op_key_ok (so_op s) && result_eqb r (so_res s) && stores_eqb m obs' then check_steps e obs' rest (S i)
+      let self_ok :=
+        match so_op s, so_pools s with
+        | OOptIn _ addr _ operator (Some v) _, Some l =>
+            (* GetOrCalculateOperatorUSDValues recomputes the value only for an operator that is not opted in *)
+            opted_active obs operator addr || (v =? self_formula l)
+        | _, _ => true
+        end in
+      if op_key_ok (so_op s) && result_eqb r (so_res s) && stores_eqb m obs' && self_ok then check_steps e obs' rest (S i)
       else Some i
   end.
 
@@ -757,7 +792,10 @@ Definition mon_optin_step (e : env) (m : mstate) (s : stepobs) (after : state) :
       (match assoc (s_avs before) key with
        | None => false
        | Some a => String.eqb (a_addr a) addr &&
-                   match self with Some v => dec_of_int (a_min_self a) <=? v | None => false end
+                   match self with Some v => dec_of_int (a_min_self a) <=? v | None => false end &&
+                   (* the self-delegated value itself (pools, shares, prices, decimals; exact rationals), not the value
+                      the code reports, meets the minimum *)
+                   match so_pools s with Some l => exact_self_ge l (a_min_self a) | None => true end
        end) &&
       mem operator (e_operators e) &&
       (match assoc (s_opted before) (join2 operator addr) with Some true => false | _ => true end) &&
